@@ -102,6 +102,49 @@ class ClassDef:
         return f"<ClassDef {self.qualname}>"
 
 
+def canonical_annotation(ann: ast.expr) -> str:
+    """One spelling for equivalent annotations: `X | None` / `Union[X, None]` -> Optional[X], PEP 585 builtins
+    (`list[str]`, `dict[..]`) -> List[..] / Dict[..], `typing.` prefixes dropped, string annotations unquoted."""
+    if isinstance(ann, ast.Constant) and isinstance(ann.value, str):
+        try:
+            ann = ast.parse(ann.value, mode="eval").body
+        except SyntaxError:
+            return ann.value
+
+    def rec(a: ast.expr) -> str:
+        if isinstance(a, ast.BinOp) and isinstance(a.op, ast.BitOr):
+            parts = []
+
+            def flat(x):
+                if isinstance(x, ast.BinOp) and isinstance(x.op, ast.BitOr):
+                    flat(x.left)
+                    flat(x.right)
+                else:
+                    parts.append(x)
+
+            flat(a)
+            non_none = [x for x in parts if not (isinstance(x, ast.Constant) and x.value is None)]
+            inner = rec(non_none[0]) if len(non_none) == 1 else "Union[" + ", ".join(rec(x) for x in non_none) + "]"
+            return f"Optional[{inner}]" if len(non_none) < len(parts) else inner
+        if isinstance(a, ast.Subscript):
+            head = rec(a.value)
+            head = {"list": "List", "dict": "Dict", "tuple": "Tuple", "set": "Set", "type": "Type", "frozenset": "FrozenSet"}.get(head, head)
+            elts = a.slice.elts if isinstance(a.slice, ast.Tuple) else [a.slice]
+            args = [rec(x) for x in elts]
+            if head == "Union" and "None" in args:
+                rest = [x for x in args if x != "None"]
+                return f"Optional[{rest[0] if len(rest) == 1 else 'Union[' + ', '.join(rest) + ']'}]"
+            return f"{head}[{', '.join(args)}]"
+        if isinstance(a, ast.Attribute):
+            d = dotted(a) or norm(a)
+            return d.split(".", 1)[1] if d.startswith(("typing.", "collections.abc.")) and d.count(".") >= 1 else d.rsplit(".", 1)[-1] if d.startswith("typing") else d
+        if isinstance(a, ast.Constant):
+            return "None" if a.value is None else (a.value if isinstance(a.value, str) else repr(a.value))
+        return norm(a)
+
+    return rec(ann)
+
+
 def assigned_expr(st: ast.stmt, name: str) -> Optional[ast.expr]:
     """The expression a module-level assignment statement binds `name` to; for unpacking targets (`a, b = xs`) the
     synthetic expression `xs[i]` (None when it cannot be expressed, e.g. starred targets)."""
@@ -495,7 +538,7 @@ class SrcModel:
                 continue
             for st in c.node.body:
                 if isinstance(st, ast.AnnAssign) and isinstance(st.target, ast.Name):
-                    ann = norm(st.annotation)
+                    ann = canonical_annotation(st.annotation)
                     info: Dict[str, object] = {
                         "annotation": ann,
                         "optional": ann.startswith(("Optional[", "typing.Optional[")) or (ann.startswith("Union[") and "None" in ann) or ann == "None",
@@ -589,9 +632,12 @@ class SrcModel:
                 ann = ast.parse(ann.value, mode="eval").body
             except SyntaxError:
                 return None
+        if isinstance(ann, ast.BinOp) and isinstance(ann.op, ast.BitOr):  # X | None
+            sides = [x for x in (ann.left, ann.right) if not (isinstance(x, ast.Constant) and x.value is None)]
+            return self._annotation_class(mod, sides[0]) if len(sides) == 1 else None
         if isinstance(ann, ast.Subscript):
             head = dotted(ann.value) or ""
-            if head.split(".")[-1] in ("Optional", "Type"):
+            if head.split(".")[-1] in ("Optional", "Type", "type"):
                 return self._annotation_class(mod, ann.slice)
             return self._annotation_class(mod, ann.value)
         res = self.resolve_expr(mod, ann)
